@@ -11,6 +11,7 @@ theorem body_WithFPS : Tea.Gen.fact_body_WithFPS = Tea.Doc.fact_body_WithFPS := 
 theorem calls : Tea.Gen.fact_calls = Tea.Doc.fact_calls := rfl
 theorem body_standardRenderer_listen : Tea.Gen.fact_body_standardRenderer_listen = Tea.Doc.fact_body_standardRenderer_listen := rfl
 theorem body_standardRenderer_start : Tea.Gen.fact_body_standardRenderer_start = Tea.Doc.fact_body_standardRenderer_start := rfl
+theorem body_standardRenderer_halt : Tea.Gen.fact_body_standardRenderer_halt = Tea.Doc.fact_body_standardRenderer_halt := rfl
 theorem locks : Tea.Gen.fact_locks = Tea.Doc.fact_locks := rfl
 
 end Tea.Props.Bridge.C19
